@@ -35,7 +35,10 @@ def replay_real_threads(func, args):
 
   def body_a():
     step(0)
-    obs.append(('a-before', describe()))
+    if args.get('a_pre', 0) == 0:
+      obs.append(('a-before', describe()))
+    elif args.get('a_pre') == 2:
+      fec.set_for_each_client_backend(None)
     step(0)
     try:
       with fec.for_each_client_backend(a_arg):
@@ -122,7 +125,12 @@ def configs(tier):
           for raises in (0, 1):
             if tier == 'quick' and (inner, bset, raises) not in ((0, 0, 1), (1, 1, 0), (2, 0, 1), (1, 0, 1)):
               continue
-            out.append((a, inner, b, bset, raises))
+            out.append((a, inner, b, bset, raises, 0))
+  # the context as the thread's first backend operation / right after set_for_each_client_backend(None)
+  for pre in (1, 2):
+    for a in ([0] if tier == 'quick' else [0, 2]):
+      for (inner, raises) in ((0, 0), (0, 1), (1, 1)):
+        out.append((a, inner, 2, 0, raises, pre))
   return out
 
 
@@ -133,10 +141,10 @@ def check(run):
   for c in cfgs:
     env = {'C02_CFG': ','.join(map(str, c))}
     jobs.append((HARNESS, 'threads_scoped', timeout, env))
-  jobs.append((HARNESS, 'threads_reach', timeout, {'C02_CFG': '0,1,2,0,1'}))
+  jobs.append((HARNESS, 'threads_reach', timeout, {'C02_CFG': '0,1,2,0,1,0'}))
   res = xh.run_many(jobs, workers=14)
   for c, r in zip(cfgs, res[:-1]):
-    name = 'threads[a=%s,nested=%s,b=%s,b_uses_set=%d,a_raises=%d]' % (ARGS[c[0]], [None, 'debug', 'bogus'][c[1]], ARGS[c[2]], c[3], c[4])
+    name = 'threads[a=%s,nested=%s,b=%s,b_uses_set=%d,a_raises=%d,a_first=%s]' % (ARGS[c[0]], [None, 'debug', 'bogus'][c[1]], ARGS[c[2]], c[3], c[4], ['lookup', 'context', 'set(None)'][c[5]])
     if r['status'] == 'confirmed':
       run.ob(name, 'confirmed', r['secs'], detail={'crosshair': 'Confirmed over all paths', 'symbolic': 'schedule: List[bool], len <= 7'})
     elif r['status'] == 'refuted':
@@ -146,7 +154,7 @@ def check(run):
       except Exception as ex:   # pylint: disable=broad-except
         run.fail('%s: cannot parse %r' % (name, r['args']))
         continue
-      args.update(a_choice=c[0], a_inner_choice=c[1], b_choice=c[2], b_set=bool(c[3]), a_raises=bool(c[4]))
+      args.update(a_choice=c[0], a_inner_choice=c[1], b_choice=c[2], b_set=bool(c[3]), a_raises=bool(c[4]), a_pre=c[5])
       ok, msg = replay_real_threads('threads_scoped', args)
       run.violation('threads:backend-choice-leaks' if True else name, '%s with schedule %s: %s' % (name, args['schedule'], msg),
                     {'kind': 'threads', 'func': 'threads_scoped', 'args': repr(args)}, ok)
